@@ -270,6 +270,9 @@ func TestCheck(t *testing.T) {
 		return true
 	}
 	if cfg.Replay != "" {
+		if rec.ReplayFuzz(cfg.Replay, fuzzOracles) {
+			return
+		}
 		var c Case
 		if _, err := run.LoadReplay(cfg.Replay, &c); err != nil {
 			t.Fatal(err)
@@ -278,6 +281,9 @@ func TestCheck(t *testing.T) {
 		return
 	}
 	for _, f := range cfg.RegressFiles() {
+		if cfg.Shard == 0 && rec.ReplayFuzz(f, fuzzOracles) {
+			continue
+		}
 		var c Case
 		if _, err := run.LoadReplay(f, &c); err == nil && cfg.Shard == 0 {
 			do(c)
